@@ -38,12 +38,18 @@ func c20Part(name string, mk func(thorough bool) *c20Cfg) explore.Part {
 		if cfg.startMTU > 0 {
 			init += fmt.Sprintf(", start state: SetMaxDatagramSize(%d) already applied", cfg.startMTU)
 		}
+		if len(cfg.starts) > 0 {
+			init = "chosen by the first event of the history (not counted in the alphabet below): "
+			for i, st := range cfg.starts {
+				init += fmt.Sprintf("start(%d) = %d packets after %d separate loss episodes [one full-size packet sent, reported lost 100 ms later]; ", i, st.pkts, st.losses)
+			}
+		}
 		return explore.BFSSpec{
 			New:              func() explore.Instance { return newC20Inst(cfg) },
 			MaxDepth:         cfg.depth,
 			PanicIsViolation: true,
-			Rule: fmt.Sprintf("BFS depth %d over the real cubicSender (%s, initial window %s) + real pacer + real RTTStats with a harness clock; alphabet: send sizes %v (0 full,1 half,2 one byte) nonretransmittable=%v fill=%v burst(while HasPacingBudget)=%v paced-run(at TimeUntilSend)=%d early-run(at the earliest instant HasPacingBudget opens)=%d, ack %v / lose %v (0 oldest,1 newest,2 all; ack only for packets younger than 60 s), RTT samples %v (<=%d per history), MTU increase by %v bytes x<=%d, RTO=%v x<=%d, clock steps %v huge(2^62ns)=%v to-pacer-deadline=%v to-earliest-HasPacingBudget=%v; pacer clause evaluated=%v (a send is authorised when HasPacingBudget is true - up to the current datagram size - or the budget covers it); state = canon(sender) + ledger + model",
-				cfg.depth, algo, init, cfg.sizes, cfg.nonRetr, cfg.fill, cfg.burst, cfg.paced, cfg.early, cfg.acks, cfg.losses, cfg.rtts, cfg.maxRTTOps, cfg.mtuStepList(), cfg.maxMTU, cfg.rto, cfg.maxRTO, cfg.steps, cfg.huge, cfg.advPace, cfg.advGate, cfg.pacer),
+			Rule: fmt.Sprintf("BFS depth %d over the real cubicSender (%s, initial window %s) + real pacer + real RTTStats with a harness clock; alphabet: send sizes %v (0 full,1 half,2 one byte,3 full-1,5 quarter) nonretransmittable=%v fill=%v flight(one size class while CanSend)=%v burst(while HasPacingBudget)=%v paced-run(at TimeUntilSend)=%d early-run(at the earliest instant HasPacingBudget opens)=%d, ack %v / lose %v (0 oldest,1 newest,2 all; ack only for packets younger than 60 s), RTT samples %v (<=%d per history), MTU increase by %v bytes x<=%d, RTO=%v x<=%d, clock steps %v huge(2^62ns)=%v to-pacer-deadline=%v to-earliest-HasPacingBudget=%v; pacer clause evaluated=%v (a send is authorised when HasPacingBudget is true - up to the current datagram size - or the budget covers it); state = canon(sender) + ledger + model",
+				cfg.depth, algo, init, cfg.sizes, cfg.nonRetr, cfg.fill, cfg.fillSizes, cfg.burst, cfg.paced, cfg.early, cfg.acks, cfg.losses, cfg.rtts, cfg.maxRTTOps, cfg.mtuStepList(), cfg.maxMTU, cfg.rto, cfg.maxRTO, cfg.steps, cfg.huge, cfg.advPace, cfg.advGate, cfg.pacer),
 		}
 	}
 	return explore.Part{
@@ -110,6 +116,34 @@ func c20PacerMTUCfg(reno bool, initPkts int, dq, dt int) func(bool) *c20Cfg {
 	}
 }
 
+// floor: the window starts at, or within one loss reduction (factor 1/0.7) of, the two-packet
+// floor after separate loss episodes (start states chosen by the first event), and whole
+// flights of full / half / quarter size packets are outstanding while losses and
+// acknowledgements of one flight are interleaved (a reduction that is limited by the floor
+// must still count as THE reduction of that window of packets).
+func c20FloorCfg(reno bool, dq, dt int) func(bool) *c20Cfg {
+	return func(th bool) *c20Cfg {
+		c := &c20Cfg{reno: reno, initPkts: 4, depth: dq,
+			// 3584 (one reduction above the floor), 2688 (ditto, 3*0.7), 2560 (at the floor, the last
+			// reduction was limited by it), 3512 (8 packets after three reductions)
+			starts:    []c20Start{{4, 1}, {3, 1}, {4, 2}, {8, 3}},
+			sizes:     []int{0},
+			fillSizes: []int{0, 1, 5},
+			acks:      []int{0, 1}, losses: []int{0, 1},
+			maxMTU: 1,
+		}
+		if !reno {
+			c.steps = []time.Duration{time.Second}
+		}
+		if th {
+			c.depth = dt
+			c.sizes = []int{0, 1}
+			c.starts = append(c.starts, c20Start{8, 4}, c20Start{32, 7})
+		}
+		return c
+	}
+}
+
 // cap: the window starts just below the configured maximum.
 func c20CapCfg(reno bool, dq, dt int) func(bool) *c20Cfg {
 	return func(th bool) *c20Cfg {
@@ -136,6 +170,8 @@ func TestVerifC20Cc(t *testing.T) {
 		c20Part("cubic-pacer-mtu", c20PacerMTUCfg(false, 4, 5, 6)), // Cubic is not selected by the production constructors: one level less
 		c20Part("reno-cap", c20CapCfg(true, 6, 8)),
 		c20Part("cubic-cap", c20CapCfg(false, 6, 8)),
+		c20Part("reno-floor", c20FloorCfg(true, 8, 9)),
+		c20Part("cubic-floor", c20FloorCfg(false, 7, 8)),
 		c20Part("reno-window3", c20WinCfg(true, 3, false, 7, 8)),
 		c20Part("cubic-window", c20WinCfg(false, 4, false, 7, 8)),
 		c20Part("cubic-window8", c20WinCfg(false, 8, true, 6, 7)),
